@@ -55,3 +55,11 @@ Example C10_nonvacuous :
              [Step 0; Step 0; Step 1; Step 1; Step 1; Kill 0]%nat
   = [ {[ 1%nat := [7]%Z ]}; {[ 1%nat := [7]%Z ]}; {[ 1%nat := [7]%Z ]}; {[ 1%nat := [7]%Z ]}; {[ 1%nat := [7]%Z ]}; {[ 1%nat := [7]%Z ]} ].
 Proof. vm_compute. reflexivity. Qed.
+
+(** The model the theorems above are about is the translation of src/bin/copia/wire.rs cas_decide as it is now: the function
+    generated from the source by tools/gen_logic.py (Gen/CasGen.v) equals, on every input, the decision `current hash = expected` of Model/Hub.v (spec and step)
+    (statement: Proofs/TieCas.v, [cas_model_is_translation]). *)
+Require Copia.Proofs.TieCas.
+Theorem C10_model_is_translation_of_source : TieCas.cas_model_is_translation.
+Proof. exact TieCas.cas_model_is_translation_holds. Qed.
+Print Assumptions C10_model_is_translation_of_source.
